@@ -129,6 +129,23 @@ func c16Catchup(l *Ledger, label string, secs []cpxSection, blocks []bookkeeping
 	return "", nil
 }
 
+// c16CatchupFresh opens a fresh on-disk ledger and catches it up from the sections. Catching-up ledgers are always
+// on disk: on an in-memory (shared-cache) database processStagingBalances runs its kv / online-account /
+// online-round-params writers concurrently and fails at random with "database table is locked" when the machine is
+// loaded - a configuration only tests use (production ledgers are on disk). Should a lock error still surface, the
+// attempt says nothing about the file and is repeated on another fresh ledger.
+func c16CatchupFresh(w *engcWorld, t *rapid.T, name string, spec cpxNodeSpec, forceNoLRU bool, label string, secs []cpxSection, blocks []bookkeeping.Block, complete bool) (n *engcNode, stage string, err error) {
+	for attempt := 1; ; attempt++ {
+		n = cpxAddNode(w, t, fmt.Sprintf("%s.%d", name, attempt), spec, forceNoLRU, cpxStoreDisk)
+		stage, err = c16Catchup(n.L, label, secs, blocks, complete)
+		if err == nil || attempt == 3 || !strings.Contains(err.Error(), "locked") {
+			return n, stage, err
+		}
+		w.tracef("%s: catch-up attempt %d hit a database lock error at %s (%v), repeated", name, attempt, stage, err)
+		cpxCloseNode(n)
+	}
+}
+
 // ---------------------------------------------------------------------------------------------------------------
 // tampering
 
@@ -786,9 +803,8 @@ func c16Run(tb *testing.T, t *rapid.T, vk *vkCtx, protos []cpxProto) {
 
 	// ---- untampered catch-up on a fresh ledger with its own configuration
 	rspec := cpxNodeSpec{Interval: h.interval, Tracking: rapid.SampledFrom([]int64{config.CatchpointTrackingModeTracked, config.CatchpointTrackingModeStored}).Draw(t, "restored.tracking"), TrieCache: 9000}
-	rn := cpxAddNode(w, t, "restored", rspec, !w.Node.Cfg.DisableLedgerLRUCache, false)
+	rn, stage, err := c16CatchupFresh(w, t, "restored", rspec, !w.Node.Cfg.DisableLedgerLRUCache, label, secs, h.blocks, true)
 	defer cpxCloseNode(rn)
-	stage, err := c16Catchup(rn.L, label, secs, h.blocks, true)
 	if err != nil {
 		fail("catch-up from the untampered file of round %d (label %s) failed at stage %s: %v", R, label, stage, err)
 	}
@@ -868,7 +884,7 @@ func c16Run(tb *testing.T, t *rapid.T, vk *vkCtx, protos []cpxProto) {
 	tipRound := w.Model.Latest()
 	lookups += c16CompareState(t, w, "restored ledger (after following the chain)", rn.L, tipRound, fail)
 
-	// ---- tampering, each on a fresh in-memory ledger
+	// ---- tampering, each on a fresh ledger
 	var other []basics.Round
 	for _, q := range h.rounds() {
 		if q != R {
@@ -898,9 +914,12 @@ func c16Run(tb *testing.T, t *rapid.T, vk *vkCtx, protos []cpxProto) {
 		if same {
 			t.Fatalf("HARNESS: tampering %s (%s) left the file unchanged", tm.Kind, tm.Desc)
 		}
-		tn := cpxAddNode(w, t, fmt.Sprintf("tamper%d", i+1), cpxNodeSpec{Interval: h.interval, Tracking: config.CatchpointTrackingModeTracked, TrieCache: 9000}, true, true)
-		stage, err := c16Catchup(tn.L, label, tsecs, h.blocks, false)
+		tn, stage, err := c16CatchupFresh(w, t, fmt.Sprintf("tamper%d", i+1), cpxNodeSpec{Interval: h.interval, Tracking: config.CatchpointTrackingModeTracked, TrieCache: 9000}, true, label, tsecs, h.blocks, false)
 		cpxCloseNode(tn)
+		if err != nil && strings.Contains(err.Error(), "locked") {
+			vk.Label("tamper-inconclusive:db-lock")
+			continue
+		}
 		if err == nil {
 			fail("a tampered catchpoint file passed VerifyCatchpoint against the untouched label %s: %s [%s]", label, tm.Desc, tm.Kind)
 		}
@@ -934,9 +953,6 @@ func c16Run(tb *testing.T, t *rapid.T, vk *vkCtx, protos []cpxProto) {
 	}
 	if rich {
 		vk.Label("file:rich")
-	}
-	if rn.OnDisk {
-		vk.Label("restored:on-disk")
 	}
 	if horizon > 0 {
 		vk.Label("online-history-horizon>0")
@@ -1043,9 +1059,8 @@ func TestVerif_C16_KnownF1(t *testing.T) {
 			vk.Case(false, fp)
 			rt.Fatalf("HARNESS: box ab -> c is not in the catchpoint file of round %d (box written in round %d)", R, boxRound)
 		}
-		tn := cpxAddNode(w, rt, "victim", cpxNodeSpec{Interval: h.interval, Tracking: config.CatchpointTrackingModeTracked, TrieCache: 9000}, true, true)
+		tn, stage, err := c16CatchupFresh(w, rt, "victim", cpxNodeSpec{Interval: h.interval, Tracking: config.CatchpointTrackingModeTracked, TrieCache: 9000}, true, label, tsecs, h.blocks, true)
 		defer cpxCloseNode(tn)
-		stage, err := c16Catchup(tn.L, label, tsecs, h.blocks, true)
 		if err != nil {
 			// the substitution is rejected: the finding does not reproduce on this tree
 			vk.Case(false, fp)
